@@ -97,7 +97,7 @@ def _run_unary_sync(
                 app._server._check_protocol_version(md.get(PROTOCOL_VERSION_KEY) if md is not None else None)
             try:
                 _deserialize_params(kwargs, info.param_types, app._server.ipc_validation)
-            except (KeyError, ValueError) as exc:
+            except (KeyError, ValueError, OSError, pa.ArrowException) as exc:
                 # These are caller-value conversion failures (notably an
                 # unknown dictionary-encoded enum member), so classify them as
                 # malformed parameters without also misclassifying failures
